@@ -67,6 +67,9 @@ STAGES = [
     Stage('delete', '.delete({n}, 2)', lambda c, n: ml.m_delete(c, n, 2), arg='n'),
     Stage('replace', '.replace({n}, 9, 2)', lambda c, n: ml.m_replace(c, n, 9, 2), arg='n'),
     Stage('replaceMany', '.replaceMany({n}, [8, 9])', lambda c, n: ml.m_replace_many(c, n, [8, 9]), arg='n'),
+    Stage('replace-wide', '.replace({n}, 9, 5)', lambda c, n: ml.m_replace(c, n, 9, 5), arg='n'),
+    Stage('replaceMany-wide', '.replaceMany({n}, [8, 9], 4)', lambda c, n: ml.m_replace_many(c, n, [8, 9], 4), arg='n'),
+    Stage('delete-wide', '.delete({n}, 5)', lambda c, n: ml.m_delete(c, n, 5), arg='n'),
     Stage('slice', '.slice({n}).select($[0])', lambda c, n: (ch[0] for ch in ml.m_slice(c, max(n, 1))), arg='n1'),
     Stage('memorize', '.memorize()', lambda c: ml.m_memorize(c)),
     Stage('member-projection', '.select({{a => $}}).a', lambda c: (x for x in c)),
